@@ -179,6 +179,63 @@ contract(
 )
 
 
+# =====================================================================================================
+# BaseOutlineCompiler.setupTable_cmap
+
+from . import lib  # noqa: E402,F401
+
+_M = "self.unicodeToGlyphNameMapping"
+_UVS = "self.ufo.lib['public.unicodeVariationSequences']"
+_HAS_UVS = "(self.ufo.lib.get('public.unicodeVariationSequences') is not None and len(self.ufo.lib['public.unicodeVariationSequences']) > 0)"
+_CM = "self.otf['cmap']"
+_LAST = f"{_CM}.tables[len({_CM}.tables) - 1]"
+
+contract(
+    "ufo2ft.outlineCompiler:BaseOutlineCompiler.setupTable_cmap",
+    props=["C03"],
+    params={"self": Ref("OutlineCompiler")},
+    requires=[
+        "'cmap' in self.tables",
+        # the code indexes the base mapping with every UVS base value (KeyError otherwise): precondition taken from the code
+        f"implies({_HAS_UVS}, all(all(int_hex(hv) in {_M} for hv in {_UVS}[vs]) for vs in {_UVS}))",
+        # variation-selector keys parse to pairwise different integers
+        f"implies({_HAS_UVS}, all(all(implies(int_hex(a) == int_hex(b), a == b) for b in {_UVS}) for a in {_UVS}))",
+    ],
+    ensures={
+        "two-bmp-subtables": f"len({_CM}.tables) >= 2 and {_CM}.tables[0].format == 4 and {_CM}.tables[1].format == 4"
+        f" and ({_CM}.tables[0].platformID, {_CM}.tables[0].platEncID) == (0, 3) and ({_CM}.tables[1].platformID, {_CM}.tables[1].platEncID) == (3, 1)",
+        # format 4 holds exactly the mappings with cp <= 0xFFFF
+        "bmp-exact": f"{_CM}.tables[0].cmap == {{k: v for k, v in {_M}.items() if k <= 65535}} and {_CM}.tables[1].cmap == {{k: v for k, v in {_M}.items() if k <= 65535}}",
+        # format 12 exists iff some code point is supplementary, and then holds ALL mappings
+        "full-iff-nonbmp": f"iff(any(k > 65535 for k in {_M}), len({_CM}.tables) >= 4 and {_CM}.tables[2].format == 12)",
+        "full-exact": f"implies(any(k > 65535 for k in {_M}), {_CM}.tables[3].format == 12 and ({_CM}.tables[2].platformID, {_CM}.tables[2].platEncID) == (0, 4)"
+        f" and ({_CM}.tables[3].platformID, {_CM}.tables[3].platEncID) == (3, 10) and {_CM}.tables[2].cmap == {_M} and {_CM}.tables[3].cmap == {_M})",
+    },
+    bounded_ensures={
+        "count": f"len({_CM}.tables) == 2 + ite(any(k > 65535 for k in {_M}), 2, 0) + ite({_HAS_UVS}, 1, 0)",
+        # format 14: default entry (value, None) iff the sequence names the base mapping's glyph
+        "uvs": f"implies({_HAS_UVS}, {_LAST}.format == 14 and ({_LAST}.platformID, {_LAST}.platEncID) == (0, 5)"
+        f" and all(int_hex(vs) in {_LAST}.uvsDict and uvs_list_ok({_LAST}.uvsDict[int_hex(vs)], {_UVS}[vs], {_M}) for vs in {_UVS}))",
+    },
+    canaries={"bmp-has-everything": f"{_CM}.tables[0].cmap == {_M}"},
+    locals={"uvsList": List(lib.UVS_ENTRY), "uvsDict": Dict(INT, List(lib.UVS_ENTRY))},
+    hints={"uvsDict = dict()": [f"mapping == {_M}"]},
+    loops={
+        "for (hexvs, glyphMapping) in uvsMapping.items()": Loop(
+            index="i", seq="VS",
+            invariants={},
+        ),
+        "for (hexvalue, glyphName) in glyphMapping.items()": Loop(
+            index="j", seq="HV",
+            invariants={
+                "len": "len(uvsList) == j",
+                "entries": "all(uvsList[b] == uvs_entry(HV[b], glyphMapping, mapping) for b in range(j))",
+            },
+        ),
+    },
+)
+
+
 # ---- run-time side (cross-check, replay) -------------------------------------------------------
 import itertools  # noqa: E402
 
@@ -224,3 +281,74 @@ def _build_dict(d):
 CONTRACTS["ufo2ft.util:makeOfficialGlyphOrder#explicit"].runtime = Runtime(_order_cases, _build_explicit)
 CONTRACTS["ufo2ft.util:makeOfficialGlyphOrder#from-font"].runtime = Runtime(_order_cases, _build_fromfont)
 CONTRACTS["ufo2ft.util:makeOfficialGlyphOrder#dict-no-order"].runtime = Runtime(_order_cases, _build_dict)
+
+
+# ---- run-time harness for setupTable_cmap -------------------------------------------------------------
+def _cmap_cases(rng, n):
+    cps = [0x41, 0x42, 0x9089, 0x1F600, 0x2F800]
+    out = []
+    for _ in range(n):
+        k = rng.randint(0, 4)
+        names = ["a", "b", "c", "d"][:k]
+        pool = cps[:]
+        rng.shuffle(pool)
+        if rng.random() < 0.4:
+            pool = [c for c in pool if c <= 0xFFFF] + [0x43, 0x44]
+        uni = {}
+        for nm in names:
+            uni[nm] = [pool.pop() for _ in range(rng.randint(0, 2)) if pool]
+        mapped = {u: g for g, us in uni.items() for u in us}
+        uvs = {}
+        if mapped and rng.random() < 0.7:
+            for vs in rng.sample(["FE00", "FE01", "E0100"], rng.randint(1, 2)):
+                ent = {}
+                for u in rng.sample(sorted(mapped), rng.randint(1, min(2, len(mapped)))):
+                    ent["%04X" % u] = mapped[u] if rng.random() < 0.5 else rng.choice(names)
+                uvs[vs] = ent
+        out.append({"unicodes": uni, "uvs": uvs})
+    return out
+
+
+def _cmap_build(d):
+    import ufoLib2
+    from fontTools.ttLib import TTFont
+
+    from ufo2ft.outlineCompiler import OutlineOTFCompiler
+
+    f = ufoLib2.Font()
+    for nm, us in d["unicodes"].items():
+        g = f.newGlyph(nm)
+        g.unicodes = list(us)
+    if d["uvs"]:
+        f.lib["public.unicodeVariationSequences"] = {k: dict(v) for k, v in d["uvs"].items()}
+    comp = OutlineOTFCompiler(f)
+    comp.otf = TTFont()
+    return {"self": comp}
+
+
+CONTRACTS["ufo2ft.outlineCompiler:BaseOutlineCompiler.setupTable_cmap"].runtime = Runtime(
+    _cmap_cases, _cmap_build, call=lambda fn, args: fn(args["self"])
+)
+
+
+def _umap_cases(rng, n):
+    out = []
+    for _ in range(n):
+        names = ["a", "b", "c"][: rng.randint(0, 3)]
+        uni = {nm: [rng.choice([65, 66, 67, 0x1F600]) for _ in range(rng.randint(0, 2))] for nm in names}
+        order = list(names)
+        rng.shuffle(order)
+        out.append({"unicodes": uni, "order": order})
+    return out
+
+
+def _umap_build(d):
+    import ufoLib2
+
+    f = ufoLib2.Font()
+    for nm, us in d["unicodes"].items():
+        f.newGlyph(nm).unicodes = list(us)
+    return {"font": {g.name: g for g in f}, "glyphOrder": list(d["order"])}
+
+
+CONTRACTS["ufo2ft.util:makeUnicodeToGlyphNameMapping"].runtime = Runtime(_umap_cases, _umap_build)
